@@ -9,4 +9,4 @@ Require Import Extraction ExtrOcamlBasic.
 Definition c09_unused (S : SOps) (x : Z) : T S := sofZ S x.
 
 Extraction "C09_model.ml" c09_unused init step do_token run_word finish free_run thread_token
-  good all_good last_thr pend rbm tdm rae runreq last_rc exit_cause observable mutex_free complete_reboot.
+  good all_good last_thr pend rbm tdm rae runreq last_rc exit_cause observable mutex_free complete_reboot run_moves qstep_ok can_be_false.
